@@ -482,6 +482,7 @@ func history(r *Rng, style string, out *Out) ([]event, []outc) {
 
 func gen(a Args, out *Out) {
 	r := NewRng(a.Seed)
+	checkGuardText(out)
 	nhist := 400
 	if a.Thorough() {
 		nhist = 6000
